@@ -131,7 +131,8 @@ def check_case(ctx, ds, labels_name, n, schemes, score_with_library=True):
         if k >= 1:
             sums = widx.W @ got_p.reshape(-1)
             if cands is None:
-                lab = dict(enumerate(labels))
+                from ..lib import typed_labels
+                lab = typed_labels(labels, universe)
                 cands = [(tuple(tuple(order[i] for i in b) for b in c), None) for c in widx.orders]
                 cands = [(c, mk_ranking(c, lab)) for c, _ in cands]
             fac = _lib['K'](scheme) if score_with_library else None
